@@ -38,6 +38,8 @@ def plan(tier, seed):
         except SyntaxError: pass
         # every codemod also sees the other codemods' files -> cross triggers
         files["requirements.txt"] = b64(b"requests\n")
+        if q % 2 == 0: files["legacy_py2_syntax.py"] = b64(b"import os\nprint 'py2 statement'\nx = set([1])\n")       # every codemod that selects it must list it as failed, in the batch as in the chain
+        if q % 3 == 0: files["not_utf8.py"] = b64(b"import os\ns = '\xff\xfe'\n")
         files["crafted_literal_get.py"] = b64(b"import requests\nrequests.get('https://example.com')\n")
         files["crafted_subprocess.py"] = b64(b"import subprocess\ncmd = input()\nsubprocess.run(cmd, shell=True)\n")
         base = ["{proj}", "--output", "{out}"]
